@@ -56,6 +56,7 @@ def run(prog: Program, rep, tier="quick"):
     rep.rule("R11.1", "TABLE-AGREE: reader and writer struct formats, read sizes, padding and extended-flag handling agree")
     rep.rule("R11.2", "bit-fields bounded: flags operands within 16 bits, name length within FLAG_NAMEMASK, dev/ino/size within 32 bits")
     rep.rule("R11.3", "checksum verified on read, written (or zeroed under skipHash) on every normal path")
+    rep.rule("R11.5", "SIBLINGS-AGREE: index v4 prefix-length varint codec == pack OFS_DELTA offset varint codec (git's varint.c)")
     rep.rule("R11.4", "entries sorted by path then stage; extensions preserved through self._extensions")
     rep.not_decided += ["v4 prefix-compression arithmetic", "agreement with C git"]
     m = prog.module(IDX)
@@ -162,6 +163,90 @@ def run(prog: Program, rep, tier="quick"):
                 rep.ob("R11.2", IDX, wr.qual, f"32-bit field `{txt}` is masked", bounded(a, 0xFFFFFFFF, F),
                        f"entry.{field} is packed as an unsigned 32-bit value without a mask: a larger value raises "
                        f"struct.error in the middle of writing the index", a.lineno)
+    # ---- bit-field algebra of the 16-bit flags word
+    consts = {k: F.try_fold(v) for k, v in m.consts.items() if k.startswith("FLAG_")}
+    masks = [consts.get(k) for k in ("FLAG_NAMEMASK", "FLAG_STAGEMASK", "FLAG_EXTENDED", "FLAG_VALID")]
+    if any(not isinstance(x, int) for x in masks):
+        raise AnalysisError(f"flag constants not foldable: {consts}")
+    disjoint = all(masks[i] & masks[j] == 0 for i in range(4) for j in range(i + 1, 4))
+    rep.ob("R11.2", IDX, "FLAG_*", "name/stage/extended/valid masks are disjoint and cover the 16-bit word",
+           disjoint and (masks[0] | masks[1] | masks[2] | masks[3]) == 0xFFFF, f"{[hex(x) for x in masks]}", 0)
+    rep.ob("R11.2", IDX, "FLAG_STAGEMASK", "stage mask is the two bits at FLAG_STAGESHIFT", consts.get("FLAG_STAGEMASK") == 3 << consts.get("FLAG_STAGESHIFT", 0),
+           f"{consts.get('FLAG_STAGEMASK')} vs 3 << {consts.get('FLAG_STAGESHIFT')}", 0)
+
+    def field_ok(mask, shift):
+        return isinstance(mask, int) and isinstance(shift, int) and mask != 0 and (mask & -mask) == (1 << shift) and ((mask >> shift) & ((mask >> shift) + 1)) == 0
+    n_fields = 0
+    for q, f in m.funcs.items():
+        if "#" in q:
+            continue
+        # insert: X = E & ~M ... X |= V << S   /   (V << S) | (E & ~M)
+        cleared = {}
+        for s_ in ast.walk(f.node):
+            if isinstance(s_, ast.Assign) and isinstance(s_.targets[0], ast.Name) and isinstance(s_.value, ast.BinOp) and isinstance(s_.value.op, ast.BitAnd) \
+                    and isinstance(s_.value.right, ast.UnaryOp) and isinstance(s_.value.right.op, ast.Invert):
+                cleared[s_.targets[0].id] = (F.try_fold(s_.value.right.operand), s_)
+        for s_ in ast.walk(f.node):
+            if isinstance(s_, ast.AugAssign) and isinstance(s_.op, ast.BitOr) and isinstance(s_.target, ast.Name) and s_.target.id in cleared \
+                    and isinstance(s_.value, ast.BinOp) and isinstance(s_.value.op, ast.LShift):
+                mask, src_stmt = cleared[s_.target.id]
+                shift = F.try_fold(s_.value.right)
+                n_fields += 1
+                rep.ob("R11.2", IDX, q, f"field inserted with `{norm(s_, 50)}` had exactly its own bits cleared (`{norm(src_stmt, 50)}`)", field_ok(mask, shift),
+                       f"the bits cleared ({hex(mask) if isinstance(mask, int) else mask}) are not the bits of the field shifted by {shift}: old "
+                       f"bits of the field survive and are OR-ed with the new value (a resolved conflict is written back at its old stage)",
+                       s_.lineno)
+        # extract: (E & M) >> S
+        for x in ast.walk(f.node):
+            if isinstance(x, ast.BinOp) and isinstance(x.op, ast.RShift) and isinstance(x.left, ast.BinOp) and isinstance(x.left.op, ast.BitAnd):
+                mask, shift = F.try_fold(x.left.right), F.try_fold(x.right)
+                if isinstance(mask, int) and isinstance(shift, int) and mask <= 0xFFFF and "flags" in norm(x.left.left):
+                    n_fields += 1
+                    rep.ob("R11.2", IDX, q, f"field extracted with `{norm(x, 50)}` uses the mask that belongs to its shift", field_ok(mask, shift),
+                           f"mask {hex(mask)} does not start at bit {shift}", x.lineno)
+    if n_fields < 3:
+        raise AnalysisError(f"expected >= 3 flag field insert/extract sites, found {n_fields}")
+    # ---- R11.5 the index v4 prefix-length varint is git's *offset* varint (varint.c): the same codec the pack code uses
+    # for OFS_DELTA base offsets.  Siblings must agree on the two features that distinguish it from LEB128:
+    # most-significant group first (the accumulator is shifted left by 7, no growing shift) and bias by one.
+    pm = prog.module("dulwich/pack.py")
+
+    def dec_features(fn_node):
+        acc_shift = any((isinstance(x, ast.BinOp) and isinstance(x.op, ast.LShift) and F.try_fold(x.right) == 7 and not isinstance(x.left, ast.Constant)
+                         and "0x7f" not in norm(x.left).lower() and "127" not in norm(x.left))
+                        or (isinstance(x, ast.AugAssign) and isinstance(x.op, ast.LShift) and F.try_fold(x.value) == 7) for x in ast.walk(fn_node))
+        growing = any(isinstance(x, ast.BinOp) and isinstance(x.op, ast.LShift) and isinstance(x.right, ast.Name) for x in ast.walk(fn_node))
+        bias = any((isinstance(x, ast.AugAssign) and isinstance(x.op, ast.Add) and F.try_fold(x.value) == 1)
+                   or (isinstance(x, ast.BinOp) and isinstance(x.op, ast.LShift) and isinstance(x.left, ast.BinOp) and isinstance(x.left.op, ast.Add)
+                       and F.try_fold(x.left.right) == 1) for x in ast.walk(fn_node))
+        return {"msb-first": acc_shift and not growing, "bias": bias}
+
+    def enc_features(fn_node):
+        src = norm(fn_node, 100000)
+        bias = any(isinstance(x, ast.AugAssign) and isinstance(x.op, ast.Sub) and F.try_fold(x.value) == 1 for x in ast.walk(fn_node))
+        msb = "reversed(" in src or ".insert(0," in src or "[::-1]" in src
+        return {"msb-first": msb, "bias": bias}
+    ref_dec = pm.funcs.get("_decode_delta_base_offset")
+    if ref_dec is None:
+        raise AnalysisError("pack._decode_delta_base_offset (reference offset-varint decoder) not found")
+    ref = dec_features(ref_dec.node)
+    if ref != {"msb-first": True, "bias": True}:
+        raise AnalysisError(f"reference decoder features not recognised: {ref}")
+    for name in ("_decode_varint", "_decompress_path_from_stream"):
+        f = fn(name)
+        got = dec_features(f.node)
+        rep.ob("R11.5", IDX, name, "v4 prefix-length varint decoder agrees with the pack offset-varint decoder (msb first, bias by one)", got == ref,
+               f"features {got}; git's index v4 uses the offset encoding of varint.c: a little-endian/unbiased decoder misreads every "
+               f"prefix length >= 128 written by C git", f.node.lineno)
+    ref_enc = None
+    for q, f in pm.funcs.items():
+        if any(isinstance(x, ast.AugAssign) and isinstance(x.op, ast.Sub) and isinstance(x.target, ast.Name) and x.target.id == "delta_base" for x in ast.walk(f.node)):
+            ref_enc = f
+    if ref_enc is None:
+        raise AnalysisError("pack offset-varint encoder (delta_base -= 1) not found")
+    got = enc_features(fn("_encode_varint").node)
+    rep.ob("R11.5", IDX, "_encode_varint", "v4 prefix-length varint encoder agrees with the pack offset-varint encoder (msb first, bias by one)",
+           got == {"msb-first": True, "bias": True} == enc_features(ref_enc.node), f"features {got}, pack encoder {enc_features(ref_enc.node)}", fn("_encode_varint").node.lineno)
     # ---- R11.3
     ir, iw = fn("Index.read"), fn("Index.write")
     g = cfg_of(prog, ir)
